@@ -44,12 +44,21 @@ Proof.
   repeat split; try congruence; try apply H4. eapply ext_shape_ctl_l; eassumption.
 Qed.
 
+Lemma R_er_e_ctl_l a b s1 : ctl a = ctl b -> R_er_e a s1 -> R_er_e b s1.
+Proof.
+  intros H ([ex Hs] & H2 & H3 & H4).
+  assert (Hd : depth a = depth b) by (unfold ctl in H; congruence).
+  assert (Hk : stack a = stack b) by (unfold ctl in H; congruence).
+  split; [exists ex; congruence|].
+  repeat split; try congruence; try apply H4. eapply ext_shape_ctl_l; eassumption.
+Qed.
+
 Lemma bal_e_ctl {A} st st' (r : res A) : ctl st' = ctl st -> bal_e st' r -> bal_e st r.
 Proof.
   intros H Hr W. specialize (Hr (wf_ctl _ _ (eq_sym H) W)).
   destruct r as [a s|e s| |w]; try exact I.
   - eapply R_ok_e_ctl_l; eassumption.
-  - destruct Hr as [H1 H2]. split; [eapply R_er_ctl_l; eassumption|exact H2].
+  - destruct Hr as [H1 H2]. split; [eapply R_er_e_ctl_l; eassumption|exact H2].
 Qed.
 
 Lemma bal_e_ok_ctl {A} st s1 (a : A) : ctl s1 = ctl st -> bal_e st (Ok a s1).
@@ -81,18 +90,17 @@ Proof.
   - cbn [syms depth set_stack]. apply Hw.
 Qed.
 
-Lemma call_frame_er s1 k t s3 : wf s1 -> R_er_b (push_frame s1 k t) s3 -> R_er s1 s3.
+(* the frame of the failed call (and whatever its callees left) sits on top of the caller's stack, which is untouched *)
+Lemma call_frame_er s1 k t s3 : wf s1 -> R_er_b (push_frame s1 k t) s3 -> R_er_e s1 s3.
 Proof.
   intros W ((ex & f & f' & tl & Ha & Hb & F) & Hd & Hs & Hw).
   cbn [stack push_frame set_stack] in Ha. inversion Ha; subst.
-  destruct W as [Hne Wd]. destruct (stack s1) as [|g gl] eqn:E; [congruence|].
   split; [|repeat split; try assumption; try apply Hw].
-  - exists (ex ++ [f']), g, g, gl. split; [exact E|]. split; [|split; reflexivity].
-    rewrite Hb, <- app_assoc. reflexivity.
+  - exists (ex ++ [f']). rewrite Hb, <- app_assoc. reflexivity.
   - exists []. split; [exact Hs|constructor].
 Qed.
 
-Lemma R_er_leaked s1 k t : wf s1 -> R_er s1 (push_frame s1 k t).
+Lemma R_er_leaked s1 k t : wf s1 -> R_er_e s1 (push_frame s1 k t).
 Proof.
   intros W. apply (call_frame_er s1 k t); [exact W|].
   pose proof (wf_push s1 k t W) as W2.
@@ -233,7 +241,7 @@ Section Calls.
       - split; [apply R_ok_e_to_er; assumption|reflexivity].
       - pose proof (bal_declare_params (fd_params fd) args s1 (R_wf_ok_e _ _ H1)) as H2.
         destruct (declare_params s1 (fd_params fd) args) as [u s2|e s2| |w]; cbn [bind]; try exact I.
-        2:{ destruct H2 as [H2a H2b]. split; [eapply R_ok_e_er; eassumption|].
+        2:{ destruct H2 as [H2a H2b]. apply (R_er_e_er _ _ (R_wf_ok_e _ _ H1)) in H2a. split; [eapply R_ok_e_er; eassumption|].
             destruct e; try exact H2b; reflexivity. }
         assert (H02 : R_ok_e st0 s2) by (eapply R_ok_e_trans; eassumption).
         pose proof (bal_hoist (fd_body fd) s2 (R_wf_ok_e _ _ H2)) as H3.
@@ -255,7 +263,7 @@ Section Calls.
           * exact I.
           * exact I.
         + (* hoist failed *)
-          destruct H3 as [H3a H3b].
+          destruct H3 as [H3a H3b]. apply (R_er_e_er _ _ (R_wf_ok_e _ _ H2)) in H3a.
           assert (H03 : R_er st0 s3) by (eapply R_ok_e_er; eassumption).
           pose proof (bal_handle_exception k st0 (fd_catch fd) e3 s3 W0 H03) as H5.
           rewrite <- Hlen in H5.
@@ -313,7 +321,7 @@ Section Calls.
     wf s1 ->
     match call_fun ev k (push_frame s1 kind this) f args with
     | Ok _ s3 => R_ok_e s1 (pop_frame s3)
-    | Er e s3 => R_er s1 s3 /\ no_sig e
+    | Er e s3 => R_er_e s1 s3 /\ no_sig e
     | _ => True
     end.
   Proof.
@@ -341,7 +349,7 @@ Section Calls.
     wf s1 -> pres (push_frame s1 kind this) r ->
     match r with
     | Ok _ s3 => R_ok_e s1 (pop_frame s3)
-    | Er e s3 => R_er s1 s3 /\ no_sig e
+    | Er e s3 => R_er_e s1 s3 /\ no_sig e
     | _ => True
     end.
   Proof.
@@ -349,11 +357,11 @@ Section Calls.
     - apply ctl_R_ok_e; [exact W|]. unfold ctl in *. inversion H as [[Hs Hd Hy]].
       cbn [pop_frame stack depth syms set_stack]. rewrite Hs, Hd, Hy. reflexivity.
     - destruct H as [H Hn]. split; [|exact Hn].
-      eapply R_er_ctl_l with (a := s1); [reflexivity|].
+      eapply R_er_e_ctl_l with (a := s1); [reflexivity|].
       pose proof (R_er_leaked s1 kind this W) as HL.
-      destruct HL as ((ex & f & f' & tl & Ha & Hb & F) & Hd & He & Hw).
+      destruct HL as ([ex Hb] & Hd & He & Hw).
       unfold ctl in H. inversion H as [[Hs Hdd Hy]].
-      split; [exists ex, f, f', tl; repeat split; try assumption; try apply F; congruence|].
+      split; [exists ex; congruence|].
       split; [congruence|]. split.
       + destruct He as [new [Hn1 Hn2]]. exists new. unfold shape in *. rewrite Hy. split; assumption.
       + unfold wf. rewrite Hs, Hdd, Hy. exact Hw.
